@@ -16,7 +16,7 @@ SIZES = {
     "C14": {"quick": 260, "thorough": 2400},
     # C15: (data sets with sampled histories, data sets with ALL histories of
     # length <= 3)
-    "C15": {"quick": (120, 1), "thorough": (900, 12)},
+    "C15": {"quick": (120, 1), "thorough": (600, 8)},
 }
 
 ASSUMPTIONS = [
@@ -87,6 +87,16 @@ def build_units(prop, tier, seed, scale, findings):
             units.append({"kind": "c15", "idx": p["idx"],
                           "hash_class": p["idx"] % 16, "uuid_seed": 1,
                           "history": p["history"]})
+    if tier == "thorough":
+        # two data sets with every history of length <= 4 (2 340 each)
+        for i in idxs[-2:]:
+            for h in all_histories(4):
+                if len(h) == 4:
+                    units.append({"kind": "c15", "idx": i,
+                                  "hash_class": i % 16,
+                                  "uuid_seed": core.derive(
+                                      seed, prop, "uuid", i) % 2**32,
+                                  "history": h, "exhaustive": True})
     for i in idxs[:n_all]:
         for h in all_histories(3):
             units.append({"kind": "c15", "idx": i, "hash_class": i % 16,
